@@ -1,4 +1,5 @@
 import PysnarkModel.Lemmas.SoundBase
+import PysnarkModel.Lemmas.IteTag
 /-!
 # Program-level soundness, layer 1: operator dispatch on dynamically typed values
 
@@ -653,7 +654,11 @@ theorem cmpV_d {op : Cmp} {a b r : Val} (C : SCtx W) (L : Loc W s)
     s.le s' ∧ Frame s s' ∧ Loc W s' ∧ DV W s' r := by
   unfold cmpV at h
   split at h
-  · dv; exact cmpLV_d C L ha hb h
+  · split at h
+    · split at h
+      · kcall2_arm (ensurefxp_d C L (DV_lc.mpr ha)), (cmpLL_d C L1 (hb.mono le1) g1)
+      · exact cmpLV_d C L (DV_lc.mp ha) hb h
+    · dv; exact cmpLV_d C L ha hb h
   · kcall2_arm (ensurebool_d C L hb), (cmpLL_d C L1 (ha.dl.mono le1) g1.dl)
   · kcall2_arm (ensurefxp_d C L hb), (cmpLL_d C L1 (ha.mono le1) g1)
   all_goals
@@ -664,15 +669,38 @@ theorem cmpV_d {op : Cmp} {a b r : Val} (C : SCtx W) (L : Loc W s)
     · exact (raise_ok.mp h).elim
 
 /-! ## `if_then_else` -/
+theorem bool_sel_z {c t f : ZMod W.p} (hc : c = 0 ∨ c = 1) (ht : t = 0 ∨ t = 1) (hf : f = 0 ∨ f = 1) :
+    f + c * (t + -f) = 0 ∨ f + c * (t + -f) = 1 := by
+  rcases hc with rfl | rfl <;> rcases ht with rfl | rfl <;> rcases hf with rfl | rfl <;> simp
+
+/-- a selection between two determined booleans by a determined boolean is a determined boolean:
+on every satisfying assignment the product wire is `cond·(truev − falsev)`, so the new `LinCombBool`
+(built without a constraint of its own) is 0 or 1 there -/
+theorem iteBB_d {cond x y : LinComb} {r : Val} (C : SCtx W) (L : Loc W s) (hc : DB W s cond)
+    (hx : DB W s x) (hy : DB W s y) (h : iteBB cond x y s = .ok (r, s')) :
+    s.le s' ∧ Frame s s' ∧ Loc W s' ∧ DV W s' r := by
+  obtain ⟨pr, s1, h1, h2, rfl, -⟩ := iteBB_ok h
+  obtain ⟨le1, f1, L1, d1, e1⟩ := mulLL_d' C L hc.dl (hx.dl.add hy.dl.neg) h1
+  obtain ⟨-, rfl⟩ := mkBool_false_ok h2
+  have dr : DL W s' (y.add pr) := (hy.dl.mono le1).add d1
+  refine ⟨le1, f1, L1, DV_lcb.mpr ⟨dr.1, fun hle => ⟨dr.2 hle, ?_⟩⟩⟩
+  unfold BoolW
+  rw [ev_add hy.1.1.1 d1.1.1.1, e1 hle, ev_add hx.1.1.1 hy.1.neg.1.1, ev_neg]
+  exact bool_sel_z (hc.2 (le1.trans hle)).2 (hx.2 (le1.trans hle)).2 (hy.2 (le1.trans hle)).2
+
 theorem iteAux_d {cond : LinComb} (C : SCtx W) : ∀ (fuel : Nat) {t f r : Val} {s s' : St}, Loc W s →
-    DL W s cond → DV W s t → DV W s f → iteAux cond fuel t f s = .ok (r, s') →
+    DB W s cond → DV W s t → DV W s f → iteAux cond fuel t f s = .ok (r, s') →
     s.le s' ∧ Frame s s' ∧ Loc W s' ∧ DV W s' r
   | 0, t, f, r, s, s', _, _, _, _, h => by
     unfold iteAux at h
     exact (raise_ok.mp h).elim
   | fuel+1, t, f, r, s, s', L, hc, ht, hf, h => by
+    by_cases hbb : bothLcb t f = true
+    · cases t <;> cases f <;> simp only [bothLcb, reduceCtorEq] at hbb
+      rw [iteAux_bb] at h
+      exact iteBB_d C L hc (DV_lcb.mp ht) (DV_lcb.mp hf) h
     unfold iteAux at h
-    have hz : ∀ (ts fs : List Val) (s0 s0' : St) (rs : List Val), Loc W s0 → DL W s0 cond →
+    have hz : ∀ (ts fs : List Val) (s0 s0' : St) (rs : List Val), Loc W s0 → DB W s0 cond →
         (∀ t ∈ ts, DV W s0 t) → (∀ g ∈ fs, DV W s0 g) →
         zipWithM' (iteAux cond fuel) ts fs s0 = .ok (rs, s0') →
         s0.le s0' ∧ Frame s0 s0' ∧ Loc W s0' ∧ ∀ r ∈ rs, DV W s0' r := by
@@ -722,18 +750,22 @@ theorem iteAux_d {cond : LinComb} (C : SCtx W) : ∀ (fuel : Nat) {t f r : Val} 
       · obtain ⟨f', s1, h1, h⟩ := bind_ok.mp h
         obtain ⟨d, s2, h2, h⟩ := bind_ok.mp h
         obtain ⟨prod, s3, h3, h⟩ := bind_ok.mp h
-        have hf' : s.le s1 ∧ Frame s s1 ∧ Loc W s1 ∧ DV W s1 f' := by
+        obtain ⟨ret, s4, h4, h⟩ := bind_ok.mp h
+        have hf' : (s.le s1 ∧ Frame s s1 ∧ Loc W s1 ∧ DV W s1 f') ∧ bothLcb t f' = false := by
           split at h1
           · obtain ⟨y, s0, h0, h1⟩ := bind_ok.mp h1
             obtain ⟨rfl, rfl⟩ := pure_ok' h1
             obtain ⟨le0, f0, L0, g0⟩ := ensurefxp_d C L hf h0
-            exact ⟨le0, f0, L0, DV_fxp.mpr g0⟩
+            exact ⟨⟨le0, f0, L0, DV_fxp.mpr g0⟩, rfl⟩
           · obtain ⟨rfl, rfl⟩ := pure_ok' h1
-            exact L.refl hf
-        obtain ⟨le1, f1, L1, g1⟩ := hf'
+            exact ⟨L.refl hf, by simpa using hbb⟩
+        obtain ⟨⟨le1, f1, L1, g1⟩, hnb⟩ := hf'
         obtain ⟨le2, f2, L2, g2⟩ := subV_d C L1 (ht.mono le1) g1 h2
-        obtain ⟨le3, f3, L3, g3⟩ := mulLV_d C L2 (hc.mono (le1.trans le2)) g2 h3
-        obtain ⟨le4, f4, L4, g4⟩ := addV_d C L3 (g1.mono (le2.trans le3)) g3 h
+        obtain ⟨le3, f3, L3, g3⟩ := mulLV_d C L2 (hc.mono (le1.trans le2)).dl g2 h3
+        obtain ⟨le4, f4, L4, g4⟩ := addV_d C L3 (g1.mono (le2.trans le3)) g3 h4
+        -- not two booleans: the value is returned as it is
+        rw [iteTag_other _ hnb] at h
+        obtain ⟨rfl, rfl⟩ := pure_ok' h
         exact ⟨((le1.trans le2).trans le3).trans le4, ((f1.trans f2).trans f3).trans f4, L4, g4⟩
 
 theorem ifThenElse_d {cond t f r : Val} {same : Bool} (C : SCtx W) (L : Loc W s) (hc : DV W s cond)
@@ -749,7 +781,7 @@ theorem ifThenElse_d {cond t f r : Val} {same : Bool} (C : SCtx W) (L : Loc W s)
       · obtain ⟨rfl, rfl⟩ := pure_ok' h
         refine L.refl ?_
         split <;> assumption
-    · exact iteAux_d C _ L (DV_lcb.mp hc).dl ht hf h
+    · exact iteAux_d C _ L (DV_lcb.mp hc) ht hf h
     · exact (raise_ok.mp h).elim
 
 /-! ## unary operators -/
